@@ -3,7 +3,7 @@ is_unescaped_in_query over all 256 byte values on the extracted expression tree;
 reconstruction writes between segments ('/' resp. '&') and the escape character '%' must not be in the
 unescaped set, or different segment lists reconstruct to the same string.  Anything the evaluator cannot
 fold is exit 2."""
-from core.prog import strip, walk, ap, short, const_int
+from core.prog import strip, walk, ap, short, const_int, is_null_const
 from core.facts import AnalysisBroken
 
 PAIRS = {'coap_get_uri_path': 'is_unescaped_in_path', 'coap_get_query': 'is_unescaped_in_query'}
@@ -154,3 +154,85 @@ def run_hexcase(run, P, units=('coap_uri.c',)):
                 run.violation('R-URI-CLASS', f['name'], locs[(xs, K)], 'hex-letter-one-case-only:%s' % chr(K),
                               "%s is compared with '%s' but never with '%s' in this function" % (xs[:40], chr(K), chr(K - 32)), [])
     run.require(n >= 1 or run.fixture_mode, 'R-URI-CLASS(hex case): no comparison with a hex letter found in %s' % (units,))
+
+
+def run_dot_root(run, P, units=('coap_uri.c',)):
+    """R-URI-CLASS (dot-dot stops at the root): resolving a `..` segment deletes the last element of the option list, starting at a
+    position the converting function chose.  A `..` that has no path segment left to remove must remove nothing (RFC 3986 5.2.4), in
+    particular none of the options the caller's chain already held (coap_uri_into_optlist() puts Uri-Host and Uri-Port there first).
+    Structural form: 'trimming' helpers = functions of the URI unit with a `T **` parameter that delete an element reached from it and
+    cut it off (`->next = NULL` / `*param = NULL`); in every caller the position handed to such a helper is a local whose definitions
+    are `= <the chain parameter>` and `= &(*local)->next` inside a loop that runs while `*local` (i.e. the local ends up behind the
+    LAST element the chain held at entry) -- any other definition (`&(*chain)->next`: behind the FIRST element only) is the violation."""
+    from rules.r_sizefill import natural_loops
+    run.rule('R-URI-CLASS')
+    trimmers = {}
+    for f in P.lib_funcs():
+        if units and f['unit'] not in units:
+            continue
+        for i, p in enumerate(f.get('params') or ()):
+            if not (p.get('t') or '').endswith('**'):
+                continue
+            pk = 'v%s' % p['id']
+            deletes = cuts = False
+            for b, ev in P.events(f):
+                t = ev['e']
+                if t.get('k') == 'call' and (t.get('fn') or '').startswith('coap_delete_'):
+                    deletes = True
+                if t.get('k') == 'asg' and t.get('op') == '=' and (const_int(t['r']) == 0 or is_null_const(t['r'])):
+                    l = strip(t['l'])
+                    if isinstance(l, dict) and ((l.get('k') == 'mem' and l.get('f') == 'next') or (l.get('k') == 'un' and l.get('op') == '*' and ap(l.get('e')) == pk)):
+                        cuts = True
+            if deletes and cuts:
+                trimmers[(f['name'], i)] = p['n']
+    n = 0
+    for f in sorted(P.lib_funcs(), key=lambda f: f['name']):
+        if units and f['unit'] not in units:
+            continue
+        pos = {}
+        for b, ev in P.events(f):
+            t = ev['e']
+            if t.get('k') == 'call' and ev.get('top', True):
+                for (fn, i), pn in trimmers.items():
+                    if t.get('fn') == fn and len(t.get('a') or ()) > i:
+                        a = strip(t['a'][i])
+                        if isinstance(a, dict) and a.get('k') == 'var' and a.get('pi') is None:
+                            pos[ap(a)] = (a['n'], fn, ev['loc'])
+        if not pos:
+            continue
+        loops = natural_loops(f)
+        B = f['B']
+        params = set('v%s' % p['id'] for p in f.get('params') or ())
+        for vk, (vn, fn, loc) in sorted(pos.items()):
+            bad = None
+            ndefs = 0
+            for b, ev in P.events(f):
+                t = ev['e']
+                if not (t.get('k') == 'asg' and t.get('op') == '=' and ev.get('top', True) and ap(t['l']) == vk):
+                    continue
+                ndefs += 1
+                r = strip(t['r'])
+                if isinstance(r, dict) and r.get('k') == 'var' and ap(r) in params:
+                    continue                                 # = the chain parameter
+                ok = False
+                if isinstance(r, dict) and r.get('k') == 'un' and r.get('op') == '&':
+                    m = strip(r['e'])
+                    if isinstance(m, dict) and m.get('k') == 'mem' and m.get('f') == 'next':
+                        base = strip(m['b'])
+                        if isinstance(base, dict) and base.get('k') == 'un' and base.get('op') == '*' and ap(base.get('e')) == vk:
+                            for h, body in loops.items():
+                                c = (B[h].get('term') or {}).get('cond')
+                                if b['id'] in body and c is not None and any(isinstance(x, dict) and x.get('k') == 'un' and x.get('op') == '*' and ap(x.get('e')) == vk for x in walk(c)):
+                                    ok = True
+                if not ok:
+                    bad = bad or ev
+            n += 1
+            run.instance('R-URI-CLASS', '%s: the position %s handed to %s() is the end of the chain the caller supplied' % (f['name'], vn, fn))
+            run.oblige('R-URI-CLASS', bad is None and ndefs > 0, '%s:%s:trim-position-behind-callers-chain' % (f['name'], vn))
+            if bad is not None or not ndefs:
+                e = bad or {'loc': loc, 'e': None}
+                run.violation('R-URI-CLASS', f['name'], e['loc'], 'dot-dot-can-remove-callers-option:%s' % vn,
+                              '%s() resolves ".." by letting %s() delete the last element from position %s on, and %s is defined by `%s`, which is not "the chain parameter, '
+                              'advanced while *%s": a ".." at the root of the path deletes an option that was in the chain before (Uri-Port after Uri-Host)'
+                              % (f['name'], fn, vn, vn, short(bad['e'])[:60] if bad else 'nothing', vn), [])
+    run.require(n >= 1 or run.fixture_mode or run.cfg != 'base', 'R-URI-CLASS(dot-dot): no call of a list-trimming helper with a local position found (expected coap_path_into_optlist -> backup_optlist)')
